@@ -57,6 +57,15 @@ claim("C20", "exploration",
       "OFD locks of the harness conflict with fclones' F_SETLK like a foreign process' lock; intention learnt from a dry run.",
       "proptest generation; oracle = inventory comparison against the dry-run intention under foreign locks", "DESIGN.md 4 C20")
 
+claim("C10", "exploration",
+      "In-process through fclones' public ReportWriter/open_report: bounded-exhaustive over all strings of <=3/<=4 symbols of the 20-symbol hostile alphabet placed as first/middle/last path component, command argument and base-dir component, in text and JSON; random reports (arbitrary non-NUL bytes, 0-6 groups plus groups of 1023-2050 files, ms timestamps with offsets, statistics, 16/32/64-byte hashes) with shrinking; a quarter of the random reports additionally cut at every byte offset / line boundary: only complete original groups may be yielded and no clean end inside a group. Oracle = field-by-field round trip.",
+      "Links the fclones library built from /repo (verif cfg re-exports Arg only). Absolute paths, non-empty NUL-free components and arguments. A cut removing only the final newline may be accepted.",
+      "bounded-exhaustive enumeration + proptest random generation; round-trip and truncation oracles", "DESIGN.md 4 C10")
+claim("C16", "exploration",
+      "In-process: every glob of <=3/<=4 tokens over the 19-token alphabet against all 2800 paths of <=4 components, case-sensitive and ignore-case, Pattern::glob vs the harness' reference matcher (README Path Globbing); random 7-token globs and grammar-generated nested groups with metacharacter literals; conservativeness of PathSelector::matches_dir for every ancestor of every selected path under random include/exclude sets (absolute and base-dir-relative, base dirs containing . - + ( ) $ non-ASCII).",
+      "One open known finding (non-ASCII text in the literal prefix of an include pattern prunes ancestors; cannot be repaired without contradicting an existing unit test). !( ) not generated.",
+      "bounded-exhaustive enumeration + proptest random generation; differential oracle against a reference glob matcher, and a conservativeness invariant", "DESIGN.md 4 C16")
+
 NOT_YET = "check not built yet in this round (planned: see DESIGN.md section 4); not claimed until it exists"
 
 hooks_commits = subprocess.run(["git","-C","/repo","log","--format=%H %s"],capture_output=True,text=True).stdout.splitlines()
